@@ -264,7 +264,7 @@ def _machine(res, holder):
 
 
 def shards(tier):
-    per = 400 if tier == "quick" else 5000
+    per = 400 if tier == "quick" else 20000
     return [{"kind": "machine", "n": per, "steps": 30, "idx": i} for i in range(16)]
 
 
